@@ -129,6 +129,8 @@ def run(ctx):
             devcases = {json.dumps(c["e"], sort_keys=True): c for c in rd.cases}
         nexp = 0
         for c, rec, bad in suspects:
+            if ctx.enough():
+                break
             dc = devcases.get(json.dumps(c["e"], sort_keys=True))
             if dc is not None:
                 # with the deviation the folded literal changes; the optimised run then equals the value of THAT literal
